@@ -47,6 +47,9 @@ type xCase struct {
 	Seed pu.HB   `json:"seed"`
 	Jump uint32  `json:"jump"`
 	Msgs []pu.HB `json:"msgs"`
+	// AddrFormat: address-format nibble of the wallet's descriptor (0 = the one defined format; the constructor takes
+	// any value and the nibble travels in the extended seed, the mnemonic and the public key)
+	AddrFormat uint `json:"addr_format,omitempty"`
 	// Given: when set, the original is this externally created key (fresh-randomness constructor)
 	given *xmss.XMSS
 }
@@ -74,8 +77,17 @@ func sameXMSS(tag string, a, b *xmss.XMSS) (string, string) {
 	if a.GetPK() != b.GetPK() {
 		return "xmss/pk", tag + ": public key differs"
 	}
-	if a.GetAddress() != b.GetAddress() || a.GetLegacyAddress() != b.GetLegacyAddress() {
-		return "xmss/address", tag + ": address differs"
+	// addresses: equal, or refused by both in the same way (a wallet whose descriptor names an undefined address
+	// format has no address)
+	addr := func(k *xmss.XMSS) string {
+		var a [20]byte
+		var l [39]byte
+		oa := ev.Try(func() { a = k.GetAddress() })
+		ol := ev.Try(func() { l = k.GetLegacyAddress() })
+		return fmt.Sprintf("%x %s | %x %s", a, oa.Text, l, ol.Text)
+	}
+	if addr(a) != addr(b) {
+		return "xmss/address", tag + ": address (or the refusal to derive one) differs"
 	}
 	if a.GetSeed() != b.GetSeed() || a.GetExtendedSeed() != b.GetExtendedSeed() || a.GetMnemonic() != b.GetMnemonic() || a.GetHexSeed() != b.GetHexSeed() {
 		return "xmss/exported-secrets", tag + ": seed / extended seed / mnemonic / hex seed differ"
@@ -100,7 +112,9 @@ func runX(r *ev.Recorder, c *xCase) (string, string) {
 	tag := fmt.Sprintf("%s hash=%s h=%d", c.Mode, pu.HashName(hf), c.H)
 	orig := c.given
 	if orig == nil {
-		if o := ev.Try(func() { orig = pu.NewXMSS(c.Seed, c.H, hf) }); o.Panicked {
+		if o := ev.Try(func() {
+			orig = xmss.NewXMSSFromSeed(pu.Arr48(c.Seed), uint8(c.H), hf, common.AddrFormatType(c.AddrFormat))
+		}); o.Panicked {
 			return "xmss/constructor-panic", tag + ": " + o.String()
 		}
 	}
@@ -114,6 +128,9 @@ func runX(r *ev.Recorder, c *xCase) (string, string) {
 		_ = other.GetMnemonic()
 		_ = other.GetHexSeed()
 		_ = other.GetAddress()
+	}
+	if pk := orig.GetPK(); uint(pk[1]>>4) != c.AddrFormat&15 && c.given == nil {
+		return "xmss/descriptor-format-nibble", fmt.Sprintf("%s: wallet created with address format %d carries %d in its public key", tag, c.AddrFormat, pk[1]>>4)
 	}
 	_ = misc.SeedBinToMnemonic(pu.Arr48(pu.DetBytes(uint64(c.Jump)+3, 48)))
 	if heldMnemonic != mnemonicCopy || heldHex != hexCopy {
@@ -138,7 +155,7 @@ func runX(r *ev.Recorder, c *xCase) (string, string) {
 			return xmss.NewXMSSFromExtendedSeed(es)
 		},
 		"seed+params": func() *xmss.XMSS {
-			return xmss.NewXMSSFromSeed(orig.GetSeed(), orig.GetHeight(), hf, common.SHA256_2X)
+			return xmss.NewXMSSFromSeed(orig.GetSeed(), orig.GetHeight(), hf, common.AddrFormatType(c.AddrFormat))
 		},
 	}
 	var keys []*xmss.XMSS
@@ -205,7 +222,9 @@ func runX(r *ev.Recorder, c *xCase) (string, string) {
 		seed := orig.GetSeed()
 		ref := xmssref.NewKey(seed[:], c.H, pu.RefHash(hf))
 		pk := orig.GetPK()
-		if !bytes.Equal(pk[:], pu.RefPK(ref, hf)) {
+		want := pu.RefPK(ref, hf)
+		want[1] |= byte(c.AddrFormat&15) << 4 // the descriptor's address-format nibble as the wallet was created
+		if !bytes.Equal(pk[:], want) {
 			return "xmss/pk-vs-reference", tag + ": all routes agree, but on a public key that differs from the reference model's"
 		}
 		r.Count("anchored_on_reference", 1)
@@ -215,7 +234,7 @@ func runX(r *ev.Recorder, c *xCase) (string, string) {
 
 func TestXMSSRecovery(t *testing.T) {
 	r := ev.New(t, prop, "TestXMSSRecovery")
-	r.Rule("rapid: seed x 3 hash functions x height (real hashing 4, 6, sometimes 8; 10 in the thorough tier; cheap-leaf mode for heights 12, 14, 16 - and 18, 20 in the thorough tier - so that the larger height nibbles pass through every constructor); the key is re-created from its extended seed, its mnemonic, its hex seed (0x stripped) and from seed+parameters; oracle: identical public key, addresses, exported secrets, and byte-identical signatures at index 0, 1 and after one drawn forward jump; small real keys are also compared with the reference model; non-trivial = every case (4 re-creations, 12 signature comparisons), distinct by (mode,hash,h,seed)")
+	r.Rule("rapid: seed x 3 hash functions x height (real hashing 4, 6, sometimes 8; 10 in the thorough tier; cheap-leaf mode for heights 12, 14, 16 - and 18, 20 in the thorough tier - so that the larger height nibbles pass through every constructor; one real h=4 wallet in five is created with a non-default address-format nibble 1..15, which must travel through every export and re-creation); the key is re-created from its extended seed, its mnemonic, its hex seed (0x stripped) and from seed+parameters; oracle: identical public key, addresses, exported secrets, and byte-identical signatures at index 0, 1 and after one drawn forward jump; small real keys are also compared with the reference model; non-trivial = every case (4 re-creations, 12 signature comparisons), distinct by (mode,hash,h,seed)")
 	checks := r.PerShard(r.Pick(330, 4000))
 	r.Rapid(t, "xmss", checks, func(rt *rapid.T) {
 		c := &xCase{Mode: "real", Hash: uint(rapid.SampledFrom(pu.Hashes).Draw(rt, "hash")), Seed: pu.Seed48().Draw(rt, "seed"), Jump: rapid.Uint32().Draw(rt, "jump")}
@@ -241,6 +260,10 @@ func TestXMSSRecovery(t *testing.T) {
 		}
 		for i := 0; i < 3; i++ {
 			c.Msgs = append(c.Msgs, pu.Msg(120).Draw(rt, "msg"))
+		}
+		if c.Mode == "real" && c.H == 4 && rapid.IntRange(0, 4).Draw(rt, "oddFormat") == 0 {
+			c.AddrFormat = uint(rapid.IntRange(1, 15).Draw(rt, "af"))
+			r.Count("wallets_with_non_default_address_format_nibble", 1)
 		}
 		key, msg := runX(r, c)
 		r.Count(fmt.Sprintf("%s_h%02d", c.Mode, c.H), 1)
